@@ -228,6 +228,9 @@ where
 
 macro_rules! enc_fds {
     ($h:ident, $pos:expr) => {
+        enc_fds!($h, $pos, kani::any());
+    };
+    ($h:ident, $pos:expr, $be:expr) => {
         #[kani::proof]
         #[kani::unwind(9)]
         #[kani::stub(alloc::fmt::format, no_format)]
@@ -239,7 +242,7 @@ macro_rules! enc_fds {
             let a = unsafe { BorrowedFd::borrow_raw(5) };
             let b = unsafe { BorrowedFd::borrow_raw(if same { 5 } else { 6 }) };
             let vals = [zvariant::Fd::from(a), zvariant::Fd::from(b)];
-            let be: bool = kani::any();
+            let be: bool = $be;
             let mut buf = [0u8; 32];
             let mut cur = Cursor::new(&mut buf[..]);
             let r = unsafe {
@@ -254,7 +257,7 @@ macro_rules! enc_fds {
             m.array_end(mark);
             match &r {
                 Ok(w) => {
-                    kani::cover!(be && !same, "two distinct descriptors, big endian");
+                    kani::cover!(!same, "two distinct descriptors");
                     assert!(w.size() == m.len, "fd array: encoded length differs");
                     assert!(same32(&buf, &model32(&m)), "fd array: indices are not the u32 positions in the attached list (in message byte order)");
                     assert!(w.fds().len() == 2, "fd array: number of attached descriptors differs from the number of indices written");
@@ -268,6 +271,8 @@ macro_rules! enc_fds {
 }
 enc_fds!(c01_enc_ah_p0, 0);
 enc_fds!(c01_enc_ah_p2, 2);
+enc_fds!(c01_enc_ah_p0_le, 0, false);
+enc_fds!(c01_enc_ah_p0_be, 0, true);
 
 // ------------------------------------------------------------------ C01: one struct shape, per offset
 macro_rules! enc_struct_yu {
